@@ -38,7 +38,7 @@ LinkS(tg) == [t |-> "link", tg |-> tg, tl |-> 1, tc |-> <<tg>>, abs |-> FALSE, c
 Oth == [t |-> "other", o |-> "fifo"]
 DirS(c) == [t |-> "dir", ino |-> "i0", xdev |-> FALSE, rd |-> TRUE, ls |-> TRUE, c |-> c]
 
-Leaves1 == IF Wide THEN {F11, F22, F21, F11x, LinkS("x"), LinkS("y"), Oth} ELSE {F11, F22, F21, F11x, LinkS("x")}
+Leaves1 == IF Wide THEN {F11, F22, F21, F11x, LinkS("x"), LinkS("y")} ELSE {F11, F22, F21, F11x, LinkS("x")}
 Leaves2 == IF Wide THEN {F11, F22, F21, LinkS("x")} ELSE {F11, F22}
 LeavesB == {F11, F22}
 DirsA == {DirS(c) : c \in PartialFns({"a", "b"}, Leaves2)}
